@@ -83,6 +83,8 @@ var s01 struct {
 	taken    int
 	getFails bool
 	asked    int // how often the session was asked for a work connection
+	// per pooled connection: how often it had been closed when the bridge closed its ends
+	poolClosedInBridge []int
 }
 
 func s01StubWithEncryption(rwc io.ReadWriteCloser, key []byte) (io.ReadWriteCloser, error) {
@@ -103,6 +105,14 @@ func s01StubWrapRWC(r io.Reader, w io.Writer, closeFn func() error) io.ReadWrite
 func s01StubJoin(a, b io.ReadWriteCloser) (int64, int64, []error) {
 	s01.joins++
 	s01.joinA, s01.joinB = a, b
+	// the bridge ends when one direction ends: golib's Join then closes both ends, and the other
+	// direction only ends because of that; record what that close reached while the bridge still runs
+	_ = a.Close()
+	_ = b.Close()
+	s01.poolClosedInBridge = nil
+	for _, c := range s01.pool {
+		s01.poolClosedInBridge = append(s01.poolClosedInBridge, c.closed)
+	}
 	return 0, 0, nil
 }
 func s01StubWriteMsg(c io.Writer, m any) error {
@@ -306,6 +316,11 @@ func VerifC01ServerStack() {
 		zzverif.Reach("C01.server.limited")
 	}
 	zzverif.Assert(wire.closed >= 1, "C11.user.work-conn-closed-after-bridge")
+	for i, c := range s01.pool {
+		if c == wire && i < len(s01.poolClosedInBridge) {
+			zzverif.Assert(s01.poolClosedInBridge[i] >= 1, "C10.server.end-of-one-direction-closes-the-work-connection-under-every-layer")
+		}
+	}
 	zzverif.Reach("C01.server.bridged")
 }
 
